@@ -128,6 +128,15 @@ def _table_worker(tier):
         for cname, mod in configs:
             Ctx.reset()
             sm = SymModule(mod)
+            if getattr(mod, "jaxnodes", None) is not None:
+                # the stale array copies hold their own symbols (stale!key[i]): if init_states reads them instead of the current
+                # tables, the gates it writes mention a stale symbol and the steady-state obligation below fails
+                from ..sym import Sym as _Sym, SymArray as _SA
+                stale = {}
+                for k_, a_ in mod.jaxnodes.items():
+                    a_ = np.asarray(a_)
+                    stale[k_] = _SA(np.asarray([_Sym(z3.Real(f"stale!{k_}[{i}]")) for i in range(a_.shape[0])], dtype=object)) if a_.dtype.kind == "f" and a_.ndim == 1 else a_
+                object.__getattribute__(sm.px, "_extra")["jaxnodes"] = stale
             before = sm.nodes.copy()
             w0 = len(sm.px._writes)
             from ..sym import IndexOutOfBounds
